@@ -10,12 +10,15 @@
 
 mod common;
 mod eng_rid;
+mod types;
+mod exec_world;
+mod eng_cache;
 
 use common::*;
 use std::{fs, io::Write, path::PathBuf};
 
 fn engines() -> Vec<Box<dyn Engine>> {
-    vec![Box::new(eng_rid::RidEngine::default())]
+    vec![Box::new(eng_rid::RidEngine::default()), Box::new(eng_cache::CacheEngine::default())]
 }
 
 fn main() {
